@@ -112,6 +112,12 @@ func (g *SymbolGraph) RemoveEdge(from, to graphs.SymbolKey, kind *SymbolEdgeKind
 		}
 	}
 
+	// deps/revDeps record that *some* edge links from -> to, whatever its kind.
+	// They must outlive the removal of one kind for as long as an edge of another kind remains.
+	if g.hasEdgeBetween(fromBase, toBase) {
+		return
+	}
+
 	if depsMap, ok := g.deps[fromBase]; ok {
 		delete(depsMap, to)
 		if len(depsMap) == 0 {
@@ -125,6 +131,16 @@ func (g *SymbolGraph) RemoveEdge(from, to graphs.SymbolKey, kind *SymbolEdgeKind
 			delete(g.revDeps, toBase)
 		}
 	}
+}
+
+// hasEdgeBetween reports whether an edge of any kind links the two given base IDs
+func (g *SymbolGraph) hasEdgeBetween(fromBase, toBase string) bool {
+	for _, edgeDescriptor := range g.edges[fromBase] {
+		if edgeDescriptor.Edge.To.BaseId() == toBase {
+			return true
+		}
+	}
+	return false
 }
 
 func (g *SymbolGraph) AddController(request CreateControllerNode) (*SymbolNode, error) {
